@@ -1,9 +1,10 @@
 import DracoProofs.RobustAllocWalk
+import DracoProofs.SeqStream
 import DracoProps.C03
 /-
   C18 — decoder memory is bounded by stream length and declared element counts.
 
-  Model: `decodeGeometry` in the instrumented monad `DecM` (DracoModel/DecM.lean, SeqDecoder.lean).
+  Model: `decodeStreamWith eb kd` / `decodeGeometrySeq` in the instrumented monad `DecM` (DracoModel/DecM.lean, SeqDecoder.lean).
   Every C++ `resize` / `assign` / `new[]` of the sequential decoders whose size depends on the
   stream is an `alloc site bytes` event: attribute id tables, the controller's decoder array, the
   linear sequencer's point ids, `PointAttribute::Reset`, the portable int32 attribute, the face
@@ -25,20 +26,37 @@ open Draco Draco.Robust
     (an attribute value has at most 255 components of 8 bytes) -/
 theorem constants : allocA = 4259840 ∧ allocK = 2048 := by decide
 
-/-- **C18 (model, full strength).** For every byte string `bs` (bytes < 256) and option set, every
-    allocation event logged while decoding `bs` — accepted or rejected — requests at most
-    `A + K * (bs.length + declared)` bytes, where `declared` is the sum of the element counts the
-    stream has declared up to the end of the run. -/
+/-- **C18 for the dispatcher with arbitrary body decoders.** For every byte string `bs` (bytes < 256) and
+    option set, every allocation event logged by `decodeStreamWith eb kd` on `bs` — accepted or rejected —
+    requests at most `A + K * (bs.length + declared)` bytes, provided the Edgebreaker / kd-tree bodies
+    `eb`, `kd` keep the allocation invariant (`Tr`: remaining input is a suffix of `bs`, every logged
+    event within the bound for what has been declared). -/
+theorem alloc_bounded_with (eb kd : DecOpts → DecM Geometry) (opts : DecOpts) (bs : Bytes) (hb : IsBytes bs)
+    (heb : Tr bs 0 (eb opts) (fun _ => 0) (fun _ => True)) (hkd : Tr bs 0 (kd opts) (fun _ => 0) (fun _ => True)) :
+    ∀ e ∈ (decodeStreamWith eb kd opts { rest := bs }).2.allocs,
+      e.2 ≤ 4259840 + 2048 * (bs.length + (decodeStreamWith eb kd opts { rest := bs }).2.declared) :=
+  decodeStreamWith_alloc_bounded eb kd opts bs hb heb hkd
+
+/-- **C18 for the sequential decoders (full strength, no further hypothesis).** `decodeGeometrySeq` = the
+    complete decoder with the Edgebreaker / kd-tree bodies rejected (sequential point cloud and mesh
+    decoders of every bitstream version). -/
 theorem alloc_bounded (opts : DecOpts) (bs : Bytes) (hb : IsBytes bs) :
+    ∀ e ∈ (decodeGeometrySeq opts { rest := bs }).2.allocs,
+      e.2 ≤ 4259840 + 2048 * (bs.length + (decodeGeometrySeq opts { rest := bs }).2.declared) :=
+  alloc_bounded_with _ _ opts bs hb tr_failWith tr_failWith
+
+/-- … and therefore for the complete decoder on every stream whose header announces a sequential method -/
+theorem alloc_bounded_seq_stream (opts : DecOpts) (bs : Bytes) (hb : IsBytes bs) (hs : IsSeqStream { rest := bs }) :
     ∀ e ∈ (decodeGeometry opts { rest := bs }).2.allocs,
-      e.2 ≤ 4259840 + 2048 * (bs.length + (decodeGeometry opts { rest := bs }).2.declared) :=
-  decodeGeometry_alloc_bounded opts bs hb
+      e.2 ≤ 4259840 + 2048 * (bs.length + (decodeGeometry opts { rest := bs }).2.declared) := by
+  rw [decodeGeometry_eq_seq opts _ hs]
+  exact alloc_bounded opts bs hb
 
 /-- a stream that declares nothing (rejected before any count is read, or an empty geometry) cannot
-    make the decoder request more than `A + K * length` bytes at once -/
+    make the sequential decoders request more than `A + K * length` bytes at once -/
 theorem alloc_bounded_undeclared (opts : DecOpts) (bs : Bytes) (hb : IsBytes bs)
-    (h0 : (decodeGeometry opts { rest := bs }).2.declared = 0) :
-    ∀ e ∈ (decodeGeometry opts { rest := bs }).2.allocs, e.2 ≤ 4259840 + 2048 * bs.length := by
+    (h0 : (decodeGeometrySeq opts { rest := bs }).2.declared = 0) :
+    ∀ e ∈ (decodeGeometrySeq opts { rest := bs }).2.allocs, e.2 ≤ 4259840 + 2048 * bs.length := by
   intro e he
   have := alloc_bounded opts bs hb e he
   rw [h0] at this
@@ -71,10 +89,10 @@ set_option maxRecDepth 8000
 open DecM
 /-- the log is not empty on a real stream: the 28-byte mesh logs its face array (12 bytes for one
     face) and the other tables, all far below the bound; it declares 1 face + 3 points -/
-example : ∃ r s', decodeGeometry {} { rest := C03.meshStream } = (r, s') ∧ s'.declared = 4 ∧
+example : ∃ r s', decodeGeometrySeq {} { rest := C03.meshStream } = (r, s') ∧ s'.declared = 4 ∧
     s'.allocs = [("attribute.Reset", 3), ("linear_sequencer.point_ids", 12), ("controller.sequential_decoders", 8),
       ("attributes_decoder.point_attribute_ids", 4), ("mesh.faces", 12)] := by
-  simp +decide [C03.meshStream, decodeGeometry, decodeHeader, decodeSeqConnectivity, decodePointAttributesSeq,
+  simp +decide [C03.meshStream, decodeGeometrySeq, decodeStreamWith, decodeSequentialAttributesV, decodeHeader, decodeSeqConnectivity, decodePointAttributesSeq,
     decodeSequentialAttributes, decodeAttDescs, bind, DecM.andThen, DecM.version, DecM.setVersion, DecM.varint, DecM.lift,
     decVarint, decVarintAux, varintMaxDepth, bsVersion, DecM.require, DecM.ret, DecM.remaining, DecM.alloc, DecM.declare,
     replicateM', mapM', rdU8, rdU16, rdU32, readU8, readLE, leValue, pure, DecM.bytes, readBytes, dataTypeLength,
